@@ -109,6 +109,7 @@ func (c *Ctx) assume(t Term) {
 func (c *Ctx) fresh(hint, sort string) Term {
 	c.counter[hint]++
 	name := quote(fmt.Sprintf("%s!%d", hint, c.counter[hint]))
+	c.ensureSort(sort)
 	c.emit(fmt.Sprintf("(declare-const %s %s)", name, sort))
 	return Term{name, sort}
 }
@@ -204,8 +205,43 @@ func (c *Ctx) structSort(t types.Type, st *types.Struct) string {
 	for i := 0; i < st.NumFields(); i++ {
 		fs = append(fs, fmt.Sprintf("(%s %s)", quote("get "+key+"."+fieldName(st, i)), c.sortOf(st.Field(i).Type())))
 	}
-	c.decls = append(c.decls, fmt.Sprintf("(declare-datatypes ((%s 0)) (((%s %s))))", name, quote("mk "+key), strings.Join(fs, " ")))
+	line := fmt.Sprintf("(declare-datatypes ((%s 0)) (((%s %s))))", name, quote("mk "+key), strings.Join(fs, " "))
+	c.decls = append(c.decls, line)
+	c.eng.structDecls[name] = line
 	return name
+}
+
+// ensureSort makes sure every struct datatype mentioned in an SMT sort string is declared in
+// this context (sorts may have been first declared in a forked context of a dry run).
+func (c *Ctx) ensureSort(srt string) {
+	for i := 0; i < len(srt); i++ {
+		if srt[i] != '|' {
+			continue
+		}
+		j := strings.IndexByte(srt[i+1:], '|')
+		if j < 0 {
+			return
+		}
+		name := srt[i : i+j+2]
+		i += j + 1
+		if strings.HasPrefix(name, "|S ") {
+			key := "struct " + name[3:len(name)-1]
+			if c.declSeen[key] {
+				continue
+			}
+			line, ok := c.eng.structDecls[name]
+			if !ok {
+				continue
+			}
+			c.declSeen[key] = true
+			// dependencies first: the field sorts appear inside the declaration line
+			rest := line[strings.Index(line, "((("):]
+			c.ensureSort(rest)
+			c.decls = append(c.decls, line)
+		} else if strings.HasPrefix(name, "|TP ") {
+			c.decl("sort "+name, fmt.Sprintf("(declare-sort %s 0)", name))
+		}
+	}
 }
 
 func structOf(t types.Type) (*types.Struct, bool) {
@@ -446,6 +482,7 @@ func (c *Ctx) heapGet(h *heapState, key, sort string) Term {
 		return t
 	}
 	c.eng.heapSorts[key] = sort
+	c.ensureSort(sort)
 	name := quote(fmt.Sprintf("%s@%d", key, h.epoch))
 	c.decl("heap "+name, fmt.Sprintf("(declare-const %s %s)", name, sort))
 	return Term{name, sort}
